@@ -1642,7 +1642,7 @@ def run_monitor(P, init, step, starts=None, max_states=2000000):
                 seen[nk] = k
                 work.append(nk)
                 if len(seen) > max_states:
-                    raise Unresolved("monitor product too large")
+                    raise Unresolved("monitor product too large (%s, %d states)" % (getattr(step, "__qualname__", "?"), len(seen)))
     return seen
 
 
